@@ -26,6 +26,9 @@ import (
 type Page struct {
 	Size   int  `json:"size"`
 	Remote bool `json:"remote"`
+	// Stub: the page is referred to by an embedded reference object instead of a URL string
+	// or the page itself: "id+type" = {"id": url, "type": ...}, "id" = {"id": url}
+	Stub string `json:"stub,omitempty"`
 }
 
 type Chain struct {
@@ -129,6 +132,17 @@ func (c Chain) build(w *world.W) (object.Object, []truthPage) {
 		}
 		panic(c.Tail)
 	}
+	refTo := func(k int) any {
+		switch {
+		case c.Pages[k].Stub == "id+type":
+			return map[string]any{"id": pageURL(k), "type": pageType}
+		case c.Pages[k].Stub == "id":
+			return map[string]any{"id": pageURL(k)}
+		case c.Pages[k].Remote:
+			return pageURL(k)
+		}
+		return pages[k]
+	}
 	ref, nextIdx, present := tailRef()
 	// link pages back to front
 	for k := len(c.Pages) - 1; k >= 0; k-- {
@@ -138,11 +152,7 @@ func (c Chain) build(w *world.W) (object.Object, []truthPage) {
 			}
 			truth[k+1].Next = nextIdx
 		} else {
-			if c.Pages[k+1].Remote {
-				pages[k]["next"] = pageURL(k + 1)
-			} else {
-				pages[k]["next"] = pages[k+1]
-			}
+			pages[k]["next"] = refTo(k + 1)
 			truth[k+1].Next = k + 2
 		}
 	}
@@ -151,11 +161,7 @@ func (c Chain) build(w *world.W) (object.Object, []truthPage) {
 		root["current"] = pageURL(0)
 	}
 	if len(c.Pages) > 0 {
-		if c.Pages[0].Remote {
-			root["first"] = pageURL(0)
-		} else {
-			root["first"] = pages[0]
-		}
+		root["first"] = refTo(0)
 		truth[0].Next = 1
 	} else {
 		if present {
@@ -392,11 +398,14 @@ func chains(thorough bool) []Chain {
 	for _, kind := range []string{"Collection", "OrderedCollection"} {
 		for _, rootItems := range []int{-1, 0, 1, 2} {
 			for _, v := range vecs {
-				for placement := 0; placement < 3; placement++ {
+				for placement := 0; placement < 5; placement++ {
 					if len(v) == 0 && placement > 0 {
 						continue
 					}
 					tails := []string{"absent", "null", "self", "404", "wrongtype", "nonjson"}
+					if placement >= 3 { // reference stubs: with the plain endings only
+						tails = []string{"absent", "404"}
+					}
 					for k := 0; k+1 < len(v); k++ {
 						tails = append(tails, fmt.Sprintf("earlier%d", k))
 					}
@@ -404,7 +413,13 @@ func chains(thorough bool) []Chain {
 						c := Chain{Kind: kind, RootItems: rootItems, Tail: tail}
 						for k, s := range v {
 							remote := placement == 1 || (placement == 2 && k%2 == 0)
-							c.Pages = append(c.Pages, Page{Size: s, Remote: remote})
+							pg := Page{Size: s, Remote: remote}
+							if placement == 3 {
+								pg.Stub = "id+type"
+							} else if placement == 4 {
+								pg.Stub = "id"
+							}
+							c.Pages = append(c.Pages, pg)
 						}
 						out = append(out, c)
 						if placement == 1 && len(v) > 0 && (tail == "absent" || tail == "null" || tail == "404") {
@@ -501,7 +516,7 @@ func explore(r *ev.Report, c Chain, curFile string) {
 
 func main() {
 	r := ev.New("C10", "model_checking",
-		"page chains: kind {Collection, OrderedCollection} x root items {absent,0,1,2} x page-size vectors (<=3 pages of size 0..2 quick, <=4 pages of size 0..3 thorough) x placement {embedded, remote, alternating} x "+
+		"page chains: kind {Collection, OrderedCollection} x root items {absent,0,1,2} x page-size vectors (<=3 pages of size 0..2 quick, <=4 pages of size 0..3 thorough) x placement {embedded, remote, alternating, reference stub {id,type}, reference stub {id}} x "+
 			"tail {absent, null, self-cycle, cycle to each earlier page, 404, wrong type, non-JSON} (+ single-value item lists, + pages that also carry first/last/prev as real servers send them); per chain an explicit-state search over request sequences with sizes {0,1,2,3,4,7} "+
 			"(state = items delivered so far), each transition replayed on a fresh Collection through the continuation protocol, plus all unmerged request pairs and first requests with start offsets 1,2,3,5; distinct_nontrivial = chains with at least two pages or a cycle")
 	debug.SetMaxStack(64 << 20)
